@@ -90,7 +90,7 @@ CHECKS["C13"] = dict(
           "(Weitzenboeck) and = 1 for equilateral; volume sign flips under global re-orientation and volume() is translation invariant "
           "for every mesh (VolumeTransP: the shift terms cancel between opposite half-edges of a closed oriented mesh); normal_offset_(d) is defined exactly on oriented meshes, "
           "keeps the vertex count and moves vertex i by d * n_i, a displacement of length |d| wherever n_i is unit (NormalOffsetP). Direction of vertex normals, centroid, "
-          "avg_edge_length, normalize_ (theorem under C19), the rigid/scale laws other than those of the total area (AreaInvarP: invariant under every Q^T Q = I and translation, times s^2 under scaling) and of volume() (VolumeScaleP: times s^3 under scaling, times det Q under p -> Q p + b, so kept by rotations and negated by reflections) and of tria_qualities (QualityInvarP: invariant under rigid motion and scaling by s <> 0) and centroid() (CentroidAffP: equivariant under translation and positive scaling) and avg_edge_length of triangle and tetra meshes (EdgeLenInvarP: rigid invariant, times s under scaling) and the tria_areas / vertex_areas lists (VertexAreasInvarP) and the volume branch structure are modelled and "
+          "avg_edge_length, normalize_ (theorem under C19), the rigid/scale laws other than those of the total area (AreaInvarP: invariant under every Q^T Q = I and translation, times s^2 under scaling) and of volume() (VolumeScaleP: times s^3 under scaling, times det Q under p -> Q p + b, so kept by rotations and negated by reflections) and of tria_qualities (QualityInvarP: invariant under rigid motion and scaling by s <> 0) and centroid() (CentroidAffP: equivariant under translation and positive scaling) and avg_edge_length of triangle and tetra meshes (EdgeLenInvarP: rigid invariant, times s under scaling) and the tria_areas / vertex_areas lists (VertexAreasInvarP) and tria_normals under translation and positive scaling (NormalsTransP, NormalsScaleP) and the volume branch structure are modelled and "
           "tied by correspondence + metamorphic oracles on the implementation (partial)."),
     design="6/C13", technique="Coq proof over R (sqrt/field/nra) + vm_compute correspondence at binary64")
 
